@@ -645,7 +645,8 @@ class AndNotMatcher(BiMatcher):
 
     def skip_to_quality(self, minquality):
         skipped = self.a.skip_to_quality(minquality)
-        self._find_next()
+        if self.a.is_active():
+            self._find_next()
         return skipped
 
     def id(self):
